@@ -210,30 +210,37 @@ def fcidump(led):
 
     wr = source.find_def("iodata.formats.fcidump", "dump_one")
     _, text = source.module_ast("iodata.formats.fcidump")
-    # the four-deep loop nest
+    # the four-deep loop nest: four `for <name> in range(<expr>)` loops around one `if`; plain assignments of local names
+    # between the loop headers (hoisted sub-expressions) are substituted into what follows
     nest = None
     for st in wr.body:
         if isinstance(st, ast.For):
-            chain, cur = [], st
+            chain, lets, cur = [], [], st
             while isinstance(cur, ast.For):
                 chain.append(cur)
-                cur = cur.body[0] if len(cur.body) == 1 else None
+                inner = [x for x in cur.body if not (isinstance(x, ast.Assign) and len(x.targets) == 1 and isinstance(x.targets[0], ast.Name))]
+                lets.append([x for x in cur.body if x not in inner])
+                cur = inner[0] if len(inner) == 1 else None
             if len(chain) == 4:
-                nest = (chain, cur)
+                nest = (chain, lets, cur)
                 break
-    if nest is None or not isinstance(nest[1], ast.If):
-        rec(led, "fcidump@iodata.formats.fcidump.dump_one::two-electron-loop-nest-has-the-expected-shape", False, "four nested for-range loops around one if", backend="ast")
+    if nest is None or not isinstance(nest[2], ast.If):
+        # the analysis does not recognise the writer any more: undecided (re-annotation needed), not a violation
+        led.record("fcidump@iodata.formats.fcidump.dump_one::two-electron-loop-nest-has-the-expected-shape", "post", "unknown", "ast", 0.0, detail="expected four nested for-range loops around one if")
         return
-    chain, cond_if = nest
+    rec(led, "fcidump@iodata.formats.fcidump.dump_one::two-electron-loop-nest-has-the-expected-shape", True, "four nested for-range loops around one if", backend="ast")
+    chain, lets, cond_if = nest
     nact = z3.Int("nactive")
     env = {"nactive": nact}
     vars_, ranges = [], []
-    for loop in chain:
+    for loop, let in zip(chain, lets):
         v = z3.Int(loop.target.id)
         up = _z3expr(loop.iter.args[0], env)
         env[loop.target.id] = v
         vars_.append(v)
         ranges.append(z3.And(v >= 0, v < up))
+        for a_ in let:
+            env[a_.targets[0].id] = _z3expr(a_.value, env)
     cond = _z3expr(cond_if.test, env)
     # value = two_mo[IDX]; print(f"{value} {w1} {w2} {w3} {w4}")
     idx, words = None, None
@@ -255,7 +262,7 @@ def fcidump(led):
         if isinstance(nnode, ast.Call) and getattr(nnode.func, "id", "") == "set_four_index_element":
             rcall = [a.id for a in nnode.args[1:5]]
     shape_ok = idx is not None and words is not None and rcall is not None and all(nm in rnames for nm in rcall)
-    rec(led, "fcidump@iodata.formats.fcidump::writer-and-reader-have-the-expected-shape", shape_ok, f"idx={idx and [ast.unparse(e) for e in idx]} words={words and [ast.unparse(e) for e in words]} reader call={rcall}", backend="ast")
+    led.record("fcidump@iodata.formats.fcidump::writer-and-reader-have-the-expected-shape", "post", "discharged" if shape_ok else "unknown", "ast", 0.0, detail=f"idx={idx and [ast.unparse(e) for e in idx]} words={words and [ast.unparse(e) for e in words]} reader call={rcall}")
     if not shape_ok:
         return
     wz = [_z3expr(w, env) for w in words]  # written words 1..4 (1-based orbital numbers)
@@ -428,7 +435,9 @@ for n in {norbs}:
         if two[idx] == 0:
             set_four_index_element(two, *idx, float(rng.normal()))
     a = rng.normal(size=(n, n)); one = a + a.T
-    fn = os.path.join(tempfile.mkdtemp(), "x.fcidump")
+    _d = tempfile.mkdtemp()
+    __import__("atexit").register(__import__("shutil").rmtree, _d, True)
+    fn = os.path.join(_d, "x.fcidump")
     dump_one(IOData(one_ints={{"core_mo": one}}, two_ints={{"two_mo": two}}, core_energy=0.5, nelec=2, spinpol=0), fn)
     back = load_one(fn)
     bad = np.argwhere(~np.isclose(back.two_ints["two_mo"], two))
